@@ -196,7 +196,9 @@ Fixpoint keys_sorted (l : list bstr) : Prop :=
 
 Definition key_ok (k : bstr) : Prop := unquote_string (quote_key k) = Some k.
 
-Definition float_ok (f : fl) : Prop := exists s, fl_print f = Some s /\ parse_float s = Some f.
+(* a float literal: a finite float in normal form that the printer model prints.  That its text reads back
+   as the same float is a theorem (Proofs/FloatRtPrint.v fl_print_parse), not a condition. *)
+Definition float_ok (f : fl) : Prop := fl_finite_norm f /\ exists s, fl_print f = Some s.
 
 Fixpoint wf_expr (e : node) : Prop :=
   match e with
